@@ -605,6 +605,8 @@ class Interp:
                 return o.conj()
             if m == "copy":
                 return o
+            if m in ("flatten", "ravel") and not args and not kw:
+                return o.reshape((o.size(),), "C")
             raise Unsupported("method " + m)
         if f[0] == "npmethod":
             _, o, m = f
@@ -703,6 +705,8 @@ class Interp:
                 return bool(o.is_integer)
             return isinstance(o, (int,)) and not isinstance(o, bool)
         if t == "float":
+            if isinstance(o, sp.Symbol):
+                return bool(o.is_real) and o.is_integer is not True  # a real parameter symbol stands for a Python float
             return isinstance(o, float)
         if t == "list":
             return isinstance(o, list)
@@ -850,6 +854,22 @@ class Interp:
             return sym.identity(sp.Integer(int(n)))
         if q in ("np.conjugate", "np.conj") and isinstance(args[0], SymArray):
             return args[0].conj()
+        if q == "np.outer" and all(isinstance(a, SymArray) for a in args[:2]):
+            from . import bilinear
+
+            return bilinear.outer(args[0], args[1])
+        if q == "np.column_stack" and isinstance(args[0], (list, tuple)) and args[0] and all(isinstance(a, SymArray) for a in args[0]):
+            from . import bilinear
+
+            return bilinear.column_stack(list(args[0]))
+        if q == "np.dot" and all(isinstance(a, SymArray) and a.ndim == 2 for a in args[:2]):
+            from . import bilinear
+
+            return bilinear.matmul(args[0], args[1])
+        if q == "np.trace" and isinstance(args[0], SymArray) and len(args) == 1:
+            from . import bilinear
+
+            return bilinear.trace_scalar(args[0])
         if q == "np.diag" and isinstance(args[0], SymArray) and len(args) == 1:
             from . import bilinear
 
@@ -866,6 +886,10 @@ class Interp:
             from . import bilinear
 
             return bilinear.matmul(args[0], args[1])
+        if q == "itertools.permutations" and len(args) == 1:
+            import itertools as _it
+
+            return list(_it.permutations([int(x) for x in args[0]]))
         if q == "itertools.chain":
             out = []
             for a in args:
